@@ -10,7 +10,13 @@
 //     x shapes x call options through the real streaming client (NewStream), which
 //     derives its status with the same function;
 //   - (code x handler metadata x message x details x messages sent x call options) for a
-//     server-streaming method end to end (status in the body trailer).
+//     server-streaming method end to end (status in the body trailer);
+//   - how the handler's error carries the code (bare status, wrapped with %w, custom
+//     types, joined errors, context errors) x who wraps it (the handler, a server
+//     interceptor) x codes x cancellation x renderers x entry points (carrier.go);
+//   - every sequence of 1..3 registrations over (entry point x renderer option), each in
+//     a process of its own, every handler judged against its own options after every
+//     registration (register.go).
 //
 // The oracle is the statement: the HTTP status of the table (499 rule), and the caller
 // recovers exactly the code (and message and details) the handler returned whenever
@@ -172,6 +178,9 @@ func wantOf(code uint32, okErr bool, msgID string, details int) (codes.Code, str
 	return codes.Code(code), msgText(msgID), detailMsgs(details)
 }
 
+// anyMsg as the wanted message: the message is not judged (carrier.go, joined errors).
+const anyMsg = "\x00any"
+
 // statusMismatch compares the caller's error with the status the handler returned.
 func statusMismatch(err error, wantCode codes.Code, wantMsg string, wantDetails []proto.Message) (string, string) {
 	if err == nil {
@@ -181,7 +190,7 @@ func statusMismatch(err error, wantCode codes.Code, wantMsg string, wantDetails 
 	if !ok || st.Code() != wantCode {
 		return "client-code", fmt.Sprintf("client=%v(%d) %q want %v(%d)", status.Code(err), uint32(status.Code(err)), err.Error(), wantCode, uint32(wantCode))
 	}
-	if st.Message() != wantMsg {
+	if wantMsg != anyMsg && st.Message() != wantMsg {
 		return "client-message", fmt.Sprintf("client message=%q want %q", st.Message(), wantMsg)
 	}
 	got := st.Details()
@@ -222,13 +231,13 @@ type reply struct {
 	body   []byte
 }
 
-func rendererOpts(name string) []httpgrpc.ServerOption {
-	wr := func(code int) []httpgrpc.ServerOption {
-		return []httpgrpc.ServerOption{httpgrpc.ErrorRenderer(func(_ context.Context, _ *status.Status, w http.ResponseWriter) { w.WriteHeader(code) })}
+func rendererHandlerOpts(name string) []httpgrpc.HandlerOption {
+	wr := func(code int) []httpgrpc.HandlerOption {
+		return []httpgrpc.HandlerOption{httpgrpc.ErrorRenderer(func(_ context.Context, _ *status.Status, w http.ResponseWriter) { w.WriteHeader(code) })}
 	}
 	switch name {
 	case "nothing":
-		return []httpgrpc.ServerOption{httpgrpc.ErrorRenderer(func(context.Context, *status.Status, http.ResponseWriter) {})}
+		return []httpgrpc.HandlerOption{httpgrpc.ErrorRenderer(func(context.Context, *status.Status, http.ResponseWriter) {})}
 	case "teapot":
 		return wr(418)
 	case "found":
@@ -237,6 +246,14 @@ func rendererOpts(name string) []httpgrpc.ServerOption {
 		return wr(204)
 	}
 	return nil
+}
+
+func rendererOpts(name string) []httpgrpc.ServerOption {
+	var out []httpgrpc.ServerOption
+	for _, o := range rendererHandlerOpts(name) {
+		out = append(out, o)
+	}
+	return out
 }
 
 // buildServer: the real server with the handler of the case; the second result releases
@@ -350,6 +367,12 @@ func invoke(rt http.RoundTripper, o optSet) (out string, h *optHandles, err erro
 // checkServerReply: the option-independent half, what is on the wire.
 func checkServerReply(c serverCase, rp reply) (string, string) {
 	wantCode, _, _ := wantOf(c.Code, c.OKErr, c.Msg, c.Details)
+	return replyMismatch(c.Renderer, c.Cancelled, wantCode, rp)
+}
+
+// replyMismatch: the recorded reply of a handler that returned wantCode, rendered by the
+// named renderer ("default": the documented table and the 499 rule are demanded).
+func replyMismatch(renderer string, cancelled bool, wantCode codes.Code, rp reply) (string, string) {
 	obs := fmt.Sprintf("http=%d x-grpc-status=%q", rp.status, rp.hdr.Get("X-GRPC-Status"))
 	if wantCode == codes.OK {
 		if rp.status != 200 {
@@ -357,12 +380,12 @@ func checkServerReply(c serverCase, rp reply) (string, string) {
 		}
 		return "", obs
 	}
-	if c.Renderer == "default" {
+	if renderer == "default" {
 		want, ok := table[wantCode]
 		if !ok {
 			want = 500
 		}
-		if c.Cancelled && (wantCode == codes.Canceled || wantCode == codes.DeadlineExceeded) {
+		if cancelled && (wantCode == codes.Canceled || wantCode == codes.DeadlineExceeded) {
 			want = 499
 		}
 		if rp.status != want {
@@ -378,6 +401,12 @@ func checkServerReply(c serverCase, rp reply) (string, string) {
 // checkServerClient: the recorded reply through the real client, called with option list o.
 func checkServerClient(c serverCase, rp reply, o optSet) (string, string) {
 	wantCode, wantMsg, wantDetails := wantOf(c.Code, c.OKErr, c.Msg, c.Details)
+	return clientMismatch(rp, o, wantCode, wantMsg, wantDetails, c.wantMD())
+}
+
+// clientMismatch: a recorded reply through the real client with option list o; the caller
+// must recover the given status (and the handler's metadata wantMD).
+func clientMismatch(rp reply, o optSet, wantCode codes.Code, wantMsg string, wantDetails []proto.Message, wantMD string) (string, string) {
 	obs := fmt.Sprintf("http=%d x-grpc-status=%q opts=%s", rp.status, rp.hdr.Get("X-GRPC-Status"), o)
 	out, h, err, pnc := invoke(common.CannedRT(rp.status, rp.hdr, rp.body), o)
 	if pnc != nil {
@@ -390,7 +419,7 @@ func checkServerClient(c serverCase, rp reply, o optSet) (string, string) {
 		if out != "resp" {
 			return "ok-wrong-response", fmt.Sprintf("%s response=%q", obs, out)
 		}
-		if cl, d := h.checkFilled(c.wantMD()); cl != "" {
+		if cl, d := h.checkFilled(wantMD); cl != "" {
 			return cl, obs + " " + d
 		}
 		return "", obs
@@ -398,7 +427,7 @@ func checkServerClient(c serverCase, rp reply, o optSet) (string, string) {
 	if cl, d := statusMismatch(err, wantCode, wantMsg, wantDetails); cl != "" {
 		return cl, obs + " " + d
 	}
-	if cl, d := h.checkFilled(c.wantMD()); cl != "" {
+	if cl, d := h.checkFilled(wantMD); cl != "" {
 		return cl, obs + " " + d
 	}
 	// the status travels in the headers: a body cut short afterwards must not replace the handler's status
@@ -409,7 +438,7 @@ func checkServerClient(c serverCase, rp reply, o optSet) (string, string) {
 	if cl, d := statusMismatch(err, wantCode, wantMsg, wantDetails); cl != "" {
 		return cl + "-with-broken-body", obs + " " + d
 	}
-	if cl, d := h.checkFilled(c.wantMD()); cl != "" {
+	if cl, d := h.checkFilled(wantMD); cl != "" {
 		return cl + "-with-broken-body", obs + " " + d
 	}
 	return "", obs
@@ -646,6 +675,9 @@ func (c clientCase) extras(o optSet) string {
 }
 
 func main() {
+	if len(os.Args) > 1 && os.Args[1] == regChildFlag {
+		regChildMain() // one sequence of registrations in a process of its own (register.go)
+	}
 	rep := vlib.NewReporter("C14")
 	go watchdog()
 	optSets := allOptSets()
@@ -711,6 +743,27 @@ func main() {
 				if clause, obs = checkStream(c, o); clause != "" {
 					break
 				}
+			}
+		case "carrier":
+			var c carrierCase
+			common.LoadReplay(p, &c)
+			if probe.Opts == nil {
+				sets = []optSet{{}, {H: 1, T: 1}}
+			}
+			for _, o := range sets {
+				if clause, obs = checkCarrier(c, o); clause != "" {
+					break
+				}
+			}
+		case "registrations":
+			// a replay is a fresh process: the sequence runs right here
+			var c regCase
+			common.LoadReplay(p, &c)
+			res := runRegCase(c)
+			obs = res.Sample
+			if len(res.Fails) > 0 {
+				f := res.Fails[0]
+				clause, obs = f.Clause, fmt.Sprintf("%s%s: %s", c.group(f.Probe, f.Clause), c.extras(f.Probe), f.Obs)
 			}
 		case "doc":
 			clause, obs = checkDoc(nil)
@@ -1134,29 +1187,151 @@ func main() {
 		}
 	}
 	lap("streams colliding metadata")
+
+	// (i) how the handler's error carries the code (carrier.go)
+	carrierCases, carrierStreamCases := 0, 0
+	carrierSamples := 0
+	doCarrier := func(c carrierCase) {
+		current.Store(fmt.Sprintf("%+v", c))
+		if err := c.calibrate(); err != nil {
+			fmt.Fprintln(os.Stderr, "INCONCLUSIVE:", err)
+			os.Exit(2)
+		}
+		if c.Stream {
+			carrierStreamCases++
+		} else {
+			carrierCases++
+		}
+		for _, o := range wireSets {
+			evals++
+			clause, obs := checkCarrier(c, o)
+			if !c.succeeds() {
+				distinct.add(fmt.Sprintf("carrier|%+v|%s", c, o))
+			}
+			if carrierSamples < 6 && c.Code == 5 && c.Details == 1 && !c.Cancelled && o.H == 1 && c.Renderer == "default" && c.Entry == "NewServer" && c.NMsgs == 0 &&
+				(c.Interceptor == "annotate") == (c.Carrier == "bare" || c.Carrier == "custom") && (c.Carrier == "bare" || c.Carrier == "wrap2" || c.Carrier == "custom" || c.Carrier == "join-last") && c.Interceptor != "pass" {
+				carrierSamples++
+				samples = append(samples, map[string]interface{}{"case": c, "opts": o.String(), "observed": obs})
+			}
+			if clause != "" {
+				o := o
+				cc := c
+				cc.Opts = &o
+				col.report(c.group(), c.extras(clause, o), clause+": "+strings.ReplaceAll(obs, "\n", `\n`), cc)
+			}
+		}
+	}
+	type entryRenderer struct{ entry, renderer string }
+	// the renderers through NewServer; the function entry points with their default (no
+	// option: the cross entry point x renderer option is dimension (j))
+	var unaryEntries, streamEntries []entryRenderer
+	for _, r := range renderers {
+		unaryEntries = append(unaryEntries, entryRenderer{"NewServer", r})
+	}
+	unaryEntries = append(unaryEntries, entryRenderer{"HandleServices", "default"}, entryRenderer{"HandleMethod", "default"})
+	streamEntries = []entryRenderer{{"NewServer", "default"}, {"HandleServices", "default"}, {"HandleStream", "default"}}
+	for _, carrier := range allCarriers() {
+		maxDet := 1
+		if carrier == "plain" || strings.HasPrefix(carrier, "ctx") {
+			maxDet = 0
+		}
+		for _, ic := range interceptors {
+			for _, er := range unaryEntries {
+				for _, code := range carrierCodes(carrier, codeList) {
+					for _, cancelled := range []bool{false, true} {
+						for det := 0; det <= maxDet; det++ {
+							if code == 0 && det > 0 {
+								continue
+							}
+							doCarrier(carrierCase{Kind: "carrier", Carrier: carrier, Interceptor: ic, Entry: er.entry, Code: code, Cancelled: cancelled, Renderer: er.renderer, Details: det})
+						}
+					}
+				}
+			}
+			for _, er := range streamEntries {
+				for _, code := range carrierCodes(carrier, codeList) {
+					for det := 0; det <= maxDet; det++ {
+						for n := 0; n <= 1; n++ {
+							if code == 0 && det > 0 {
+								continue
+							}
+							doCarrier(carrierCase{Kind: "carrier", Carrier: carrier, Interceptor: ic, Entry: er.entry, Stream: true, Code: code, Renderer: er.renderer, Details: det, NMsgs: n})
+						}
+					}
+				}
+			}
+		}
+	}
+	lap("error carriers")
+
+	// (j) several registrations in one process (register.go), each sequence in a child process
+	tripleCodes := []uint32{0, 1, 4, 5, 17}
+	if thorough {
+		tripleCodes = quickCodes
+	}
+	tripleSpecs := allRegSpecs()
+	if !thorough {
+		// quick tier: the explicit default renderer takes part in the sequences of 1 and 2 only
+		tripleSpecs = nil
+		for _, sp := range allRegSpecs() {
+			if sp.Renderer != "default" {
+				tripleSpecs = append(tripleSpecs, sp)
+			}
+		}
+	}
+	regCases := allRegCases(codeList, tripleCodes, tripleSpecs)
+	regResults, err := runRegCases(regCases)
+	if err != nil {
+		fmt.Fprintln(os.Stderr, "INCONCLUSIVE:", err)
+		os.Exit(2)
+	}
+	regProbes, regNontrivial, regSamples := 0, 0, 0
+	for i, res := range regResults {
+		c := regCases[i]
+		evals += res.Evals
+		regProbes += res.Evals
+		regNontrivial += res.Nontrivial
+		if regSamples < 3 && len(c.Seq) > 1 && c.Seq[0].Renderer == "none" && c.Seq[0].Entry != "NewServer" && c.Seq[0].Entry != "HandleStream" && c.Seq[len(c.Seq)-1].Renderer == "nothing" && c.Seq[len(c.Seq)-1].Entry == "HandleMethod" && (len(c.Seq) == 2 || c.Seq[1].Renderer == "teapot" && c.Seq[1].Entry == "NewServer") {
+			regSamples++
+			samples = append(samples, map[string]interface{}{"case": map[string]interface{}{"kind": "registrations", "seq": c.seqString()}, "probe": "handler #0, code 5, request live, after the last registration", "observed": res.Sample})
+		}
+		for _, f := range res.Fails {
+			cc := c
+			p := f.Probe
+			cc.Failing = &p
+			col.report(c.group(f.Probe, f.Clause), c.extras(f.Probe), f.Clause+": "+f.Obs, cc)
+		}
+	}
+	lap("registrations")
 	os.Exit(rep.Finish("exploration", map[string]interface{}{
 		"evaluations":         evals,
-		"distinct_nontrivial": len(distinct),
+		"distinct_nontrivial": len(distinct) + regNontrivial,
 		"option_lists":        len(optSets),
 		"option_lists_sweeps": len(sweepSets),
 		"collapsed_failures":  col.collapsed,
-		"rule": fmt.Sprintf("total enumeration. (a) unary, server then client: (%d gRPC codes: 0..17, 99, 1000, 2^31-1, 2^31, 3e9, 2^32-1%s) x (request context live/cancelled) x (%d renderers: %s) x (handler sets no metadata / header / trailer / both) x (message \"msg\" / empty / with colons) x (0..2 status details) through the real server on a recorder [plus GRPC-Timeout expired/far x cancelled x 3 codes, and an error carrying OK x renderers], and every recorded reply through the real client once for EACH of the %d call-option lists {0,1,2 grpc.Header} x {0,1,2 grpc.Trailer} x {grpc.Peer or not} x {grpc.PerRPCCredentials or not}, body intact and cut short. (b) unary, synthetic replies: every HTTP status 100..599 x 6 X-GRPC-Status shapes (absent, \"\", \"x:y\", \":\", \"5\", \"5:a:b: c\") x reply metadata present or not x X-GRPC-Details present or not x body (encoded response / empty) x %d option lists (quick tier: every subset of the four option kinds plus the doubled Header/Trailer lists, 19; thorough: all 36) through Invoke. (c) the same statuses x shapes x metadata (x details header%s) x the same option lists through NewStream with a well-formed framed body. (d) server-streaming method end to end through the real server and client: codes x handler metadata x message x details x (0 or 1 message sent first) x option lists, plus an error carrying OK. (e) handler-set metadata colliding with the protocol's own response headers: %d entries = {x-grpc-status: another code+message / \"0:OK\" / unparseable / the handler's code with another message; x-grpc-details: a decodable stale detail / not base64; content-type: text/plain / application/json; content-length: 0 / 3 / 99999} x {grpc.SetHeader(key), grpc.SetTrailer(key), grpc.SetHeader(\"x-grpc-trailer-\"+key)}, each contradicting what the handler then returns, crossed with codes x live/cancelled x renderers x handler metadata (%s) x all option lists, body intact and cut short; status details 1..2 swept for the status/details entries and the message shapes for the status entries; plus an error carrying OK x entries x renderers [%d server cases]. (f) the two-hop chain end to end: a backend httpgrpc server (every code x 0..1 details, sets h-key/t-key) called through an httpgrpc channel by a gateway handler that relays the backend call's grpc.Header / grpc.Trailer metadata (header only / trailer only / both) with grpc.SetHeader / SetTrailer and then returns its own outcome (%d gateway codes x 0..1 details, %s) x renderers x all option lists of the outer caller [%d cases]. (g) the same entries and the chain (backend codes 0/5/14, both hops) over net/http on loopback for gateway codes 0/5/14 x renderers x option lists {none, header+trailer}, and the stream entries for codes 0/5 [%d cases]. (h) server-streaming method: the same %d key/value pairs x {SetHeader, SendHeader, SetTrailer} x codes x (0 or 1 message sent) x (0..1 details for status/details entries) x all option lists [%d cases]. Oracle: documented HTTP status (499 rule); the caller gets exactly the handler's code, message and details whenever X-GRPC-Status is present, under every option list; without it OK for 2xx only; grpc.Header/grpc.Trailer variables hold the handler's h-key/t-key. In (e)-(h) the oracle is the same: what the HANDLER (the gateway) returned, whatever metadata it set. A case is non-trivial when it reaches the error renderer or the status-derivation path (everything except the plain OK reply of (a)/(d); a success of (e)/(f) counts only when a status or details header is on the recorded reply; (g)/(h) by all parameters); distinct by all its parameters including the option list. Failures are reported once per (old-grammar case, clause) - in (e)-(h) once per (colliding entry or chain, handler succeeded/failed, clause) - under the simplest failing member; the rest are counted in collapsed_failures.",
+		"rule": fmt.Sprintf("total enumeration. (a) unary, server then client: (%d gRPC codes: 0..17, 99, 1000, 2^31-1, 2^31, 3e9, 2^32-1%s) x (request context live/cancelled) x (%d renderers: %s) x (handler sets no metadata / header / trailer / both) x (message \"msg\" / empty / with colons) x (0..2 status details) through the real server on a recorder [plus GRPC-Timeout expired/far x cancelled x 3 codes, and an error carrying OK x renderers], and every recorded reply through the real client once for EACH of the %d call-option lists {0,1,2 grpc.Header} x {0,1,2 grpc.Trailer} x {grpc.Peer or not} x {grpc.PerRPCCredentials or not}, body intact and cut short. (b) unary, synthetic replies: every HTTP status 100..599 x 6 X-GRPC-Status shapes (absent, \"\", \"x:y\", \":\", \"5\", \"5:a:b: c\") x reply metadata present or not x X-GRPC-Details present or not x body (encoded response / empty) x %d option lists (quick tier: every subset of the four option kinds plus the doubled Header/Trailer lists, 19; thorough: all 36) through Invoke. (c) the same statuses x shapes x metadata (x details header%s) x the same option lists through NewStream with a well-formed framed body. (d) server-streaming method end to end through the real server and client: codes x handler metadata x message x details x (0 or 1 message sent first) x option lists, plus an error carrying OK. (e) handler-set metadata colliding with the protocol's own response headers: %d entries = {x-grpc-status: another code+message / \"0:OK\" / unparseable / the handler's code with another message; x-grpc-details: a decodable stale detail / not base64; content-type: text/plain / application/json; content-length: 0 / 3 / 99999} x {grpc.SetHeader(key), grpc.SetTrailer(key), grpc.SetHeader(\"x-grpc-trailer-\"+key)}, each contradicting what the handler then returns, crossed with codes x live/cancelled x renderers x handler metadata (%s) x all option lists, body intact and cut short; status details 1..2 swept for the status/details entries and the message shapes for the status entries; plus an error carrying OK x entries x renderers [%d server cases]. (f) the two-hop chain end to end: a backend httpgrpc server (every code x 0..1 details, sets h-key/t-key) called through an httpgrpc channel by a gateway handler that relays the backend call's grpc.Header / grpc.Trailer metadata (header only / trailer only / both) with grpc.SetHeader / SetTrailer and then returns its own outcome (%d gateway codes x 0..1 details, %s) x renderers x all option lists of the outer caller [%d cases]. (g) the same entries and the chain (backend codes 0/5/14, both hops) over net/http on loopback for gateway codes 0/5/14 x renderers x option lists {none, header+trailer}, and the stream entries for codes 0/5 [%d cases]. (h) server-streaming method: the same %d key/value pairs x {SetHeader, SendHeader, SetTrailer} x codes x (0 or 1 message sent) x (0..1 details for status/details entries) x all option lists [%d cases]. Oracle: documented HTTP status (499 rule); the caller gets exactly the handler's code, message and details whenever X-GRPC-Status is present, under every option list; without it OK for 2xx only; grpc.Header/grpc.Trailer variables hold the handler's h-key/t-key. In (e)-(h) the oracle is the same: what the HANDLER (the gateway) returned, whatever metadata it set. A case is non-trivial when it reaches the error renderer or the status-derivation path (everything except the plain OK reply of (a)/(d); a success of (e)/(f) counts only when a status or details header is on the recorded reply; (g)/(h) by all parameters); distinct by all its parameters including the option list. Failures are reported once per (old-grammar case, clause) - in (e)-(h) once per (colliding entry or chain, handler succeeded/failed, clause) - under the simplest failing member; the rest are counted in collapsed_failures. (i) how the handler's error carries the code: %d carriers {status.Error as it is; wrapped with %%w once / twice; inside an application error type with Unwrap(); errors.Join(status, other) / errors.Join(other, status); an application error type with GRPCStatus(), bare / wrapped with %%w [these two also with an OK status]; context.Canceled / context.DeadlineExceeded bare / wrapped once / twice / in an Unwrap() type / joined; errors.New (Unknown)} x server interceptor {none, passes the error on, annotates it with %%w} x every code the carrier can carry (all codes of (a); 1 and 4 for context errors) x 0..1 status details; unary: x request live/cancelled x {NewServer+WithServerUnaryInterceptor with each renderer; HandleServices, HandleMethod with their unaryInt argument, default renderer} [%d cases]; server-streaming: x {NewServer+WithServerStreamInterceptor, HandleServices, HandleStream with streamInt} x (0 or 1 message sent) [%d cases]; each x option lists {none, header+trailer}, body intact and cut short. The status the handler returned is what grpc-go reads from the error (status.FromError, i.e. errors.As, then status.FromContextError, i.e. errors.Is); every member is first calibrated: that reading must give the code the member was built from. Oracle as in (a)/(d) with that status (message of a joined error not judged). Reported once per (carrier, wrapped by the handler alone / also by an annotating interceptor) under the simplest failing member, whose clause is in the tail. (j) several registrations in one process: every sequence of 1 and 2 registrations over %d (entry point, renderer option) pairs = {HandleServices, HandleMethod, HandleStream, NewServer+RegisterService} x {no option, ErrorRenderer(DefaultErrorRenderer), a renderer that writes nothing, a renderer with its own status 418} and every sequence of 3 over %d of them (quick tier: without the explicit default) = %d sequences, EACH IN A PROCESS OF ITS OWN (child of this binary); sequences of 1 and 2: after every registration every handler made so far (unary and streaming) is called with every code of (a) x request live/cancelled (streams: live); sequences of 3: after the third registration every handler with codes %v x live/cancelled [%d requests]. Each handler is judged against its OWN options: no option / explicit default -> the documented table and the 499 rule and no custom renderer called; custom renderer -> exactly its own renderer called once with the handler's code, nobody else's; always: the caller recovers the code (unary: recorded reply through the real client; stream: end to end). Reported once per (entry point and option of the judged handler, unary/stream, clause) under the shortest failing sequence. distinct_nontrivial adds for (i) every case x option list except the plain success and for (j) every request with a non-OK code (distinct by sequence, judged handler, moment, method kind, code, cancellation; counted in the children).",
 			len(codeList), map[bool]string{true: ", 18..64, 255, 256, 65535, 65536, 2^31+5, 2^32-2", false: ""}[thorough], len(renderers), strings.Join(renderers, "/"), len(optSets), len(sweepSets), map[bool]string{true: "", false: " only where a code is parseable"}[thorough],
 			len(unaryCollides), map[bool]string{true: "none / both", false: "none; none / both in the thorough tier"}[thorough], collideCases,
-			len(gatewayCodes), map[bool]string{true: "request live/cancelled", false: "request live; the 24 quick-tier codes and live/cancelled in the thorough tier"}[thorough], chainCases, wireCases, len(streamCollides)/3, streamCollideCases),
-		"colliding_entries":    len(unaryCollides),
-		"collide_cases":        collideCases,
-		"chain_cases":          chainCases,
-		"loopback_cases":       wireCases,
-		"stream_collide_cases": streamCollideCases,
-		"samples":              samples,
-		"exhaustive":           true,
+			len(gatewayCodes), map[bool]string{true: "request live/cancelled", false: "request live; the 24 quick-tier codes and live/cancelled in the thorough tier"}[thorough], chainCases, wireCases, len(streamCollides)/3, streamCollideCases,
+			len(allCarriers()), carrierCases, carrierStreamCases, len(allRegSpecs()), len(tripleSpecs), len(regCases), tripleCodes, regProbes),
+		"colliding_entries":      len(unaryCollides),
+		"collide_cases":          collideCases,
+		"chain_cases":            chainCases,
+		"loopback_cases":         wireCases,
+		"stream_collide_cases":   streamCollideCases,
+		"carrier_cases":          carrierCases + carrierStreamCases,
+		"registration_sequences": len(regCases),
+		"registration_requests":  regProbes,
+		"samples":                samples,
+		"exhaustive":             true,
 	}, []string{
 		"net/http itself is exercised only in (g) (loopback, keep-alives off); everywhere else: server on httptest.ResponseRecorder, client on a canned RoundTripper (streaming end to end: the handler runs inside RoundTrip, the reply is complete when it returns)",
 		"colliding metadata keys are lower case (what metadata.Pairs and a relayed grpc.Header variable produce); one colliding entry per handler, except in the chain, which relays everything the backend reply carried",
 		"the chain's backend hop runs without a recorder in between only in (g); in (f) both hops are recorder-based",
 		"call options the channel ignores (WaitForReady, MaxCall*MsgSize, CallContentSubtype, ...) are not part of the option dimension",
 		"the JSON unary content type is not enumerated (the real client never sends it)",
+		"(i) the entry points other than NewServer are crossed with the carriers under the default renderer only (entry point x renderer option is (j)); one wrapping layer per interceptor, one interceptor per handler; an interceptor that REPLACES the status is not a member (the status the handler returned is then not defined)",
+		"(j) all registrations of a sequence use the same service (t.S with unary M and server-streaming SS; the request value selects the code), no interceptors; sequences of 3 are exercised only after the third registration (the states before it are the cases of the shorter sequences) and, in the quick tier, with 5 codes and without the explicit-default option; sequences longer than 3 are not enumerated",
 	}))
 }
 
